@@ -117,3 +117,30 @@ Proof.
   split; [vm_compute; reflexivity|]. split; [vm_compute; reflexivity|].
   vm_compute. eexists _, _. split; reflexivity.
 Qed.
+
+(* ---------------------------------------------------------------- second tie: translated code
+   GenLeaf.v is REGENERATED from /repo's Go source on every run (tools/go2coq, explicit Go integer
+   semantics GoSem.v); the theorems below say that the generated definitions equal the model's
+   functions on the stated ranges, so an edit of these Go functions breaks an obligation of this file. *)
+From Arsenal Require GoSem GenLeaf GenLeafProofs.
+
+Theorem C05_code_sizeToMemoryClass : forall s, -2 ^ 63 <= s < 2 ^ 63 -> GenLeaf.sizeToMemoryClass s = Tlsf.size_to_class s.
+Proof. exact GenLeafProofs.gen_sizeToMemoryClass_eq. Qed.
+Print Assumptions C05_code_sizeToMemoryClass.
+
+Theorem C05_code_sizeToSecondIndex : forall s mc, 0 <= s < 2 ^ 63 -> 0 <= mc <= 248 -> (mc = 0 -> s <= 2 ^ 22) ->
+  GenLeaf.sizeToSecondIndex s mc = Tlsf.size_to_sli s mc.
+Proof. exact GenLeafProofs.gen_sizeToSecondIndex_eq. Qed.
+Print Assumptions C05_code_sizeToSecondIndex.
+
+Theorem C05_code_getListIndex : forall mc sli, 0 <= mc < 256 -> 0 <= sli < 65536 -> GenLeaf.getListIndex mc sli = Tlsf.list_index mc sli.
+Proof. exact GenLeafProofs.gen_getListIndex_eq. Qed.
+Print Assumptions C05_code_getListIndex.
+
+Theorem C05_code_getListIndexFromSize : forall s, 0 <= s < 2 ^ 63 -> GenLeaf.getListIndexFromSize s = Tlsf.list_of_size s.
+Proof. exact GenLeafProofs.gen_getListIndexFromSize_eq. Qed.
+Print Assumptions C05_code_getListIndexFromSize.
+
+Theorem C05_code_sizeForNextList : forall s, -2 ^ 63 <= s < 2 ^ 62 -> GenLeaf.sizeForNextList s = GoSem.Ret (Tlsf.size_for_next_list s).
+Proof. exact GenLeafProofs.gen_sizeForNextList_eq. Qed.
+Print Assumptions C05_code_sizeForNextList.
